@@ -68,10 +68,12 @@ PROPS = {
             'trusted_base': REG_TB, 'rule': REG_RULE,
             'assumptions': ['chain ids consist of bytes (hypothesis realbytes); the tx signer is the validator account (SDK GetSigners)']},
     'C20': {'suites': [{'name': 'conn', 'bin': 'connharness', 'quick': '-n 400', 'thorough': '-n 5000', 'shards': {'quick': 2, 'thorough': 16}},
-                       {'name': 'cmd', 'bin': 'connharness', 'quick': '-n 6000', 'thorough': '-n 100000', 'shards': {'quick': 1, 'thorough': 8}}],
+                       {'name': 'cmd', 'bin': 'connharness', 'quick': '-n 6000', 'thorough': '-n 100000', 'shards': {'quick': 1, 'thorough': 8}},
+                       # the connector process itself (hook: tag verif): start-up resync + rounds of relayMinterEvents, committer intercepted
+                       {'name': 'relay', 'bin': 'connharness', 'quick': '-n 120', 'thorough': '-n 2000', 'shards': {'quick': 4, 'thorough': 16}}],
             'trusted_base': [
                 'model: coq/Conn/Connector.v (ValidateAndComplete incl. common.IsHexAddress and big.Int.SetString(s,0) number syntax, strconv.Atoi, transaction classification, GetLatestMinterBlockAndNonce, LoadStatus/Commit, '
-                'the numbering of relayMinterEvents) is hand-written; tied to /repo by co-executing the real packages minter-connector/{minter,context,command} against a scripted Minter node (net/http/httptest serving /status and /blocks) '
+                'the numbering of relayMinterEvents) is hand-written; tied to /repo by co-executing the real packages minter-connector/{minter,context,command} against a scripted Minter node (net/http/httptest serving /status and /blocks), by running the connector binary itself (cmd/mhub-minter-connector built with -tags verif: relay_verif.go runs resync + relayMinterEvents rounds and prints cursors and intercepted claims) '
                 'and by calling ValidateAndComplete on generated payloads',
                 'abstractions: bech32 validity of send_to_hub recipients is an input computed by sdk.AccAddressFromBech32 in the harness; JSON decoding of the payload is done by the implementation (the model receives the three strings, or "not JSON"); '
                 'the node answers every request and returns blocks in ascending order (an unreachable node makes the real loop retry forever: not modelled); the requests of 100 blocks are flattened into one ascending scan',
@@ -243,7 +245,7 @@ TEXT = {
     'C20': {'technique': 'Coq invariant (whole-block cursor) over restart histories + characterisation of command validity + correspondence with the real connector packages on a scripted Minter node',
             'level': 'Theorems for all block histories, acknowledged nonces, node heights and restart sequences (incl. lost or corrupt status file): every persisted and every returned cursor is the result of scanning a whole number of blocks from the configured start, '
                      'hence next nonce = start nonce + number of bridge events at or below the last checked block; a relay round numbers its events consecutively from there (nonce independent of the restart history); '
-                     'a send is a deposit iff it goes to the multisig with a JSON command of known type, valid recipient and integer fee 0 <= f < amount - amount/100. PARTIAL: the relay loop is modelled but not co-executed (package main, needs a hub connection).',
+                     'a send is a deposit iff it goes to the multisig with a JSON command of known type, valid recipient and integer fee 0 <= f < amount - amount/100. The relay loop is co-executed as well: the connector binary (build tag verif: the transaction committer is intercepted, no hub connection) is started against the scripted node for a resync and 1-3 rounds per start; cursors, status file and the claims handed to the committer are compared with the model, and the monitor re-checks whole-block cursors and consecutive claim nonces. PARTIAL: crashes in the middle of a round and the broadcast of the claims (tx_committer, hub side) are outside.',
             'note': 'Trusted: Coq kernel, extraction + driver, Go harness with the scripted node; the model covers the tree after three connector fix: commits (negative fee, partial-block resync, corrupt status file).'},
     'C08': {'technique': 'source-to-Coq translator (Hub2.sol conditions interpreted by the model) + Coq proofs of the signature-threshold loop + co-execution with the compiled contract on a simulated chain',
             'level': 'Theorems for all signer sets, signature subsets and power distributions: the contract\'s check accepts only if validators of its current set with valid signatures hold strictly more than the threshold, and (no invalid signature supplied) exactly then; '
